@@ -10,6 +10,7 @@ rng = random.Random(5)
 cfgs = MM.quick_configs(rng) + MM.thorough_configs(rng)[:6]
 counts = collections.defaultdict(int)
 code_lines = set()
+branches = {}
 for k, cfg in enumerate(cfgs):
     d = '/var/tmp/cov/c%d' % k
     os.makedirs(d, exist_ok=True)
@@ -25,13 +26,20 @@ for k, cfg in enumerate(cfgs):
     cases += [MM.pingpong_case(rng, cfg, 'pp%d' % j) for j in range(20)] + [MM.replica_case(rng, cfg, 'rep%d' % j, 12) for j in range(30)]
     inp = '\n'.join(l for c in cases for l in c) + '\n'
     subprocess.run(['./h'], cwd=d, input=inp, capture_output=True, text=True, timeout=600)
-    subprocess.run(['gcov', '-r', '-s', '/repo/include', 'h.cpp'], cwd=d, capture_output=True, text=True)
+    subprocess.run(['gcov', '-b', '-c', '-r', '-s', '/repo/include', 'h.cpp'], cwd=d, capture_output=True, text=True)
     # find machine.hpp.gcov
     for f in os.listdir(d):
         if f.endswith('machine.hpp.gcov'):
+            cur_ln = None
             for line in open(os.path.join(d, f), errors='replace'):
+                mb = re.match(r'branch\s+(\d+)\s+(taken (\d+)|never executed)', line)
+                if mb and cur_ln is not None:
+                    key = (cur_ln, int(mb.group(1)))
+                    branches[key] = branches.get(key, 0) + (int(mb.group(3)) if mb.group(3) else 0)
+                    continue
                 m = re.match(r'\s*([^:]+):\s*(\d+):', line)
                 if not m: continue
+                cur_ln = int(m.group(2))
                 c, ln = m.group(1).strip(), int(m.group(2))
                 if c == '-': continue
                 code_lines.add(ln)
@@ -43,5 +51,9 @@ un = sorted(l for l in code_lines if counts[l] == 0)
 import shutil
 for k in range(len(cfgs)): shutil.rmtree('/var/tmp/cov/c%d' % k, ignore_errors=True)
 print('code lines seen', len(code_lines), 'never executed', len(un))
+bl = sorted({l for (l, b), c in branches.items() if c == 0 and counts[l] > 0})
+print('branches', len(branches), 'never taken', sum(1 for c in branches.values() if c == 0), 'on', len(bl), 'executed lines')
+for l in bl:
+    print('B', l, [b for (l2, b), c in sorted(branches.items()) if l2 == l and c == 0], src[l-1].strip()[:140])
 for l in un:
     print(l, src[l-1].strip()[:150])
